@@ -19,15 +19,24 @@ TRUSTED = [
 IMPORTS = "From Aelys Require Import Extracted.HeapConsts Model.HeapLimit Model.HeapLimitObs."
 KIND = {0: "ok", 1: "OutOfMemory", 2: "InvalidAllocationSize", 3: "TypeError", 5: "panic", 6: "abort", 7: "timeout", 9: "other"}
 FAMILY = {"array_int": "array_new", "array_float": "array_new", "array_bool": "array_new", "array_obj": "array_new",
-          "vec_push": "vec_push", "vec_reserve": "vec_reserve", "manual_alloc": "manual_alloc", "bytes_alloc": "bytes_alloc",
-          "string_repeat": "string_repeat", "pad_left": "string_pad", "pad_right": "string_pad", "concat_double": "string_concat",
+          "vec_push": "vec_push", "vec_push_float": "vec_push", "vec_push_bool": "vec_push", "vec_push_obj": "vec_push",
+          "vec_reserve": "vec_reserve", "vec_reserve_float": "vec_reserve", "vec_reserve_bool": "vec_reserve", "vec_reserve_obj": "vec_reserve",
+          "manual_alloc": "manual_alloc", "manual_reuse": "manual_alloc", "bytes_alloc": "bytes_alloc",
+          "string_repeat": "string_repeat", "string_repeat_mb": "string_repeat", "pad_left": "string_pad", "pad_right": "string_pad",
+          "pad_left_mb": "string_pad", "pad_right_mb": "string_pad", "concat_double": "string_concat",
           "vec_new_lit": "vec_literal", "closures": "closure"}
-UNIT = {"array_int": 8, "array_float": 8, "array_obj": 8, "array_bool": 1, "vec_push": 8, "vec_reserve": 8, "manual_alloc": 8,
-        "bytes_alloc": 1, "string_repeat": 16, "pad_left": 1, "pad_right": 1}
+# bytes per unit of the size argument
+UNIT = {"array_int": 8, "array_float": 8, "array_obj": 8, "array_bool": 1, "vec_push": 8, "vec_push_float": 8, "vec_push_obj": 8,
+        "vec_push_bool": 1, "vec_reserve": 8, "vec_reserve_float": 8, "vec_reserve_obj": 8, "vec_reserve_bool": 1, "manual_alloc": 8,
+        "manual_reuse": 8, "bytes_alloc": 1, "string_repeat": 16, "string_repeat_mb": 6, "pad_left": 1, "pad_right": 1,
+        "pad_left_mb": 3, "pad_right_mb": 3}
 CAP_LO, CAP_HI = 1536 << 20, 3072 << 20
-LOOPS = ("vec_push", "concat_double", "vec_new_lit", "closures")   # a refusal inside the loop leaves earlier charges
-MODELLED = {"array_int", "array_float", "array_bool", "array_obj", "vec_push", "vec_reserve", "manual_alloc", "bytes_alloc",
-            "string_repeat", "pad_left", "pad_right", "concat_double"}
+LOOPS = ("vec_push", "vec_push_float", "vec_push_bool", "vec_push_obj", "concat_double", "vec_new_lit", "closures",
+         "manual_reuse")   # a refusal in the middle leaves the earlier charges
+MODELLED = set(UNIT) | {"concat_double"}
+# operations that make ONE request: when they are refused the host must not have been asked for anything
+SINGLE = {"array_int", "array_float", "array_bool", "array_obj", "vec_reserve", "vec_reserve_float", "vec_reserve_bool", "vec_reserve_obj",
+          "manual_alloc", "bytes_alloc", "string_repeat", "string_repeat_mb", "pad_left", "pad_right", "pad_left_mb", "pad_right_mb"}
 
 
 def parse(out):
@@ -59,13 +68,13 @@ def request_bytes(r):
         return 24 + UNIT[op] * n
     if op == "manual_alloc":
         return 8 * n
-    if op == "string_repeat":
-        return None if n <= 1 else 24 + 16 * n
-    if op in ("pad_left", "pad_right"):
-        return None if n <= 16 else 24 + n
-    if op == "vec_reserve":
-        # Vec<Int>[1] has length 1 and capacity 1: the exact need for n more elements is n * 8 bytes of growth
-        return None if n <= 0 else 8 * n
+    if op in ("string_repeat", "string_repeat_mb"):
+        return None if n <= 1 else 24 + UNIT[op] * n
+    if op in ("pad_left", "pad_right", "pad_left_mb", "pad_right_mb"):
+        return None if n <= 16 else 24 + (n - 16) * UNIT[op] + 16
+    if op.startswith("vec_reserve"):
+        # the literal has length 1 and capacity 1: the exact need for n more elements is n elements of growth
+        return None if n <= 0 else UNIT[op] * n
     return None
 
 
@@ -74,7 +83,7 @@ def calibrate(rows):
     c = {}
     for r in rows:
         key = (r["op"], r["opt"])
-        if r["kind"] in (1, 2, 3, 5) and r["op"] not in LOOPS:
+        if r["kind"] in (1, 2, 3, 5) and r["op"] not in LOOPS or r["op"] == "manual_reuse" and r["kind"] in (2, 3):
             c.setdefault(key, set()).add(r["delta"])
     base = {}
     for r in rows:
@@ -109,18 +118,22 @@ def oracle(ctx, r, const, stats):
             ctx.violation(f"refused-under-limit:{fam}", f"request of {req} bytes refused with {used0} in use, limit {r['limit']}", rep)
         if kind == 0 and r["delta"] - c != req and fam != "vec_reserve":     # reserve may grow by amortised doubling
             ctx.violation(f"charge-mismatch:{fam}", f"charged {r['delta'] - c} bytes for a request of {req}", rep)
-        # refused, but the host had already been asked for the memory (address space grew by the request)
-        if kind == 1 and req >= max(8 * r["limit"], 1 << 27) and r["dpeak_kib"] * 1024 >= req // 2 and fam != "manual_alloc":
-            ctx.violation(f"host-alloc-before-check:{fam}", f"refused with OutOfMemory after the host had allocated ~{r['dpeak_kib']} KiB for a request of {req} bytes", rep)
+
+    # refused, but the host had already been asked for memory: the address space of the process grew although the
+    # operation makes a single request and that request was turned down (on the unchanged tree the growth is exactly 0)
+    if kind in (1, 2, 3) and r["op"] in SINGLE and r["dpeak_kib"] > 512:
+        ctx.violation(f"host-alloc-before-check:{fam}", f"refused ({KIND[kind]}) after the address space had grown by {r['dpeak_kib']} KiB: "
+                      f"the host allocated before the limit check (request of {req} bytes, limit {r['limit']})", rep)
     # the storage of a vec is accounted as it grows: what is held has been charged
-    if kind == 0 and fam in ("vec_push", "vec_reserve") and r["size"] > 0 and c is not None and r["delta"] - c < 8 * r["size"]:
-        ctx.violation(f"held-unaccounted:{fam}", f"a vec of {r['size']} more ints ({8 * r['size']} bytes) is held but only {r['delta'] - c} bytes were charged (limit {r['limit']})", rep)
+    if kind == 0 and fam in ("vec_push", "vec_reserve") and r["size"] > 0 and c is not None and r["delta"] - c < UNIT[r["op"]] * r["size"]:
+        ctx.violation(f"held-unaccounted:{fam}", f"a vec of {r['size']} more elements ({UNIT[r['op']] * r['size']} bytes) is held but only {r['delta'] - c} bytes were charged (limit {r['limit']})", rep)
     if kind in (1, 2, 3) and c is not None and r["delta"] != c and r["op"] not in LOOPS:
         ctx.violation(f"failed-op-changed-accounting:{fam}", f"delta {r['delta']} after a refused operation, {c} expected", rep)
-    if kind == 2 and not (r["op"] == "manual_alloc" and r["size"] == 0):
+    if kind == 2 and not (r["op"] in ("manual_alloc", "manual_reuse") and r["size"] == 0):
         ctx.violation(f"unexpected-kind:{fam}", "InvalidAllocationSize", rep)
-    if kind == 3 and not ((r["op"] in ("manual_alloc", "vec_reserve", "array_int", "array_float", "array_bool", "array_obj") and r["size"] < 0)
-                          or (r["op"] == "bytes_alloc" and (r["size"] <= 0 or r["size"] > (256 << 20)))):
+    neg_ok = r["size"] < 0 and (r["op"] in ("manual_alloc", "manual_reuse", "array_int", "array_float", "array_bool", "array_obj") or fam == "vec_reserve")
+    bytes_ok = r["op"] == "bytes_alloc" and (r["size"] <= 0 or r["size"] > (256 << 20))
+    if kind == 3 and not (neg_ok or bytes_ok):
         ctx.violation(f"unexpected-kind:{fam}", "TypeError", rep)
     # guarded loops (vec literals, closures): Ok or OutOfMemory, and OutOfMemory only near the limit
     if r["op"] in ("vec_new_lit", "closures") and kind == 1 and r["a0"] + r["delta"] + 4096 < r["limit"]:
